@@ -55,8 +55,9 @@ def run(ctx):
                              (mut.violated, mut.out[-1500:]))
         ctx.tlc_expect_ok("FieldSelect", "FieldSelect_mutant_sharedbuf.cfg", timeout=600, deadlock=False, count=False,
                           overrides={"M_DepthBuffersDisjoint": "TRUE"}, name="same scope, buffers disjoint (must pass)")
-        ctx.extra["spec_mutants_rejected"] = ["M_DepthBuffersDisjoint=FALSE: " + " / ".join(
-            "%s" % st[1].get("cs", "")[:300] for st in mut.trace[-1:])]
+        cex = re.search(r"State 2:.*?\n(.*?)\n\s*\n", mut.out, re.S)
+        ctx.extra["spec_mutants_rejected"] = ["M_DepthBuffersDisjoint=FALSE: " +
+                                              (" ".join(cex.group(1).split())[:700] if cex else "?")]
         total = len(cases)
         ctx.extra["documents"] = docs
         ctx.rng.shuffle(cases)          # the whole exported scope is replayed in both tiers; the seed orders it
